@@ -69,7 +69,7 @@ claim("C19", PROOF,
       "Proof over uninterpreted library parsers (atoi, pdur, dsize, split, trim as spec functions): rateFlag.Set stores exactly N and D of 'N/D' (D defaults to 1s, a bare unit means one of it), 'infinity' and 0 give Freq 0, malformed counts/units are rejected; headers.Set appends the trimmed value under the case-preserved trimmed key and leaves every other key untouched; "
       "csl.Set, maxBodyFlag.Set (-1, documented sizes, overflow rejected), dnsTTLFlag.Set, connectToFlag.Set (exactly four parts, validated, appended to the source's list, other sources untouched) and resolver normalizeAddrs (':53' appended iff no colon, order kept, host must be an IP, port a uint16) each meet their documented meaning for every input string.",
       "Trusted: go/ssa builder, govc, solvers; assumed contracts of strconv.Atoi/ParseUint, time.ParseDuration, strings.Split/SplitN/TrimSpace/Contains, net.SplitHostPort/ParseIP, datasize.UnmarshalText. "
-      "attack(): an unlimited rate (Freq == 0, which both 0 and infinity give) together with the default -max-workers is refused before anything is set up and before any attack starts - proved with every call attack() makes afterwards over-approximated as 'may change anything, returns anything' (pragma unknowncalls havoc) and with the panic-freedom and callee preconditions of that set-up code ASSUMED (pragma obligations contract; counts in the evidence); attack() also hands every flag value (redirects, timeout, workers, max-workers, keepalive, connections, max-connections, http2, h2c, max-body, unix-socket, chunked, dns-ttl, connect-to, session-tickets, proxy headers), the default body and headers, and rate/duration/name to the library unchanged, and never calls Stop itself (assumption `keeps *opts`: the abstracted calls do not write the options struct). "
+      "attack(): an unlimited rate (Freq == 0, which both 0 and infinity give) together with the default -max-workers is refused before anything is set up and before any attack starts - proved with every call attack() makes afterwards over-approximated as 'may change anything, returns anything' (pragma unknowncalls havoc) and with the panic-freedom and callee preconditions of that set-up code ASSUMED (pragma obligations contract; counts in the evidence); attack() also hands every flag value (redirects, timeout, workers, max-workers, keepalive, connections, max-connections, http2, h2c, max-body, unix-socket, chunked, dns-ttl, connect-to, session-tickets, proxy headers), the default body and headers, and rate/duration/name to the library unchanged (compared with the values at entry), draws from the library's targeter and writes with the library's encoder themselves (no wrapper in between), and never calls Stop itself (assumption `keeps *opts`: the abstracted calls do not write the options struct). "
       "Not covered: that a rate's printed form parses back (fmt.Sprintf is opaque), flag package plumbing.",
       "DESIGN.md 8/C19")
 
